@@ -184,6 +184,10 @@ pub fn gen_metadata(rng: &mut Rng, case: &mut CCase) {
             case.spec.metadata_files.push((k, v));
         }
     }
+    // One CLI case in twelve also names a metadata file that cannot be read.
+    if case.writer != Writer::Lib && rng.chance(1, 6) {
+        case.spec.unreadable_metadata = Some((format!("unreadable{}", rng.below(10)), rng.below(2) as u8));
+    }
     // CLI: an empty key or a key starting with '-' cannot be passed reliably.
     if case.writer != Writer::Lib {
         case.spec.metadata_values.retain(|e| !e.0.starts_with('-') && !e.1.starts_with('-'));
@@ -210,6 +214,16 @@ pub fn one_case(rep: &Report, idx: usize, case: &CCase, inj: &Injection, keep: b
         rep.eval();
         if obs.exit == proc::Exit::Timeout || obs.exit.hit_cpu_limit() {
             rep.inconclusive("watchdog / CPU budget of the case exhausted");
+            return Ok(());
+        }
+        if let Some((k, kind)) = &case.spec.unreadable_metadata {
+            // Nothing could be recorded for this key: a run that claims success has not
+            // recorded the requested metadata, whatever else the archive holds.
+            if obs.exit.ok() {
+                return Err(format!("compress exited 0 although the file for requested metadata key {:?} {}: the requested metadata is not recorded", k, if *kind == 1 { "is a directory" } else { "does not exist" }));
+            }
+            rep.count("unreadable_metadata_file_refused", 1);
+            rep.nontrivial(format!("unreadable-metadata:{}:{}", kind, case.spec.describe()));
             return Ok(());
         }
         if !obs.exit.ok() {
